@@ -103,7 +103,7 @@ func datasetScenario(tier string) *mc.Scenario[*DatasetWorld] {
 	vals := []float64{-2, -1, 0, 1, 3.5}
 	sc := &mc.Scenario[*DatasetWorld]{Name: "C20/datasets", Property: "C20", Depth: 6, Slots: 2, FrameClause: "C20.frame"}
 	if tier == "thorough" {
-		sc.Depth = 8
+		sc.Depth = 7
 	}
 	sc.Fresh = func() *DatasetWorld {
 		return &DatasetWorld{D: [2]*dataset.Dataset{dataset.NewDataset(), dataset.NewDataset()}}
